@@ -11,6 +11,7 @@
 #include <sys/mman.h>
 #include <sys/stat.h>
 #include <sanitizer/common_interface_defs.h>
+extern "C" void __sanitizer_set_report_fd(void *) __attribute__((weak));
 
 extern "C" {
 #include "libMultiMarkdown.h"
@@ -41,7 +42,7 @@ static void cap_init() {
 	fz_real_err = dup(2);
 	fz_cap_fd = memfd_create("fd2", 0);
 	// sanitizer reports keep going to the real stderr while fd 2 is captured
-	__sanitizer_set_report_fd((void *)(intptr_t)fz_real_err);
+	if (&__sanitizer_set_report_fd) __sanitizer_set_report_fd((void *)(intptr_t)fz_real_err);
 }
 static void cap_begin() {
 	cap_init(); fflush(stderr);
